@@ -435,6 +435,12 @@ class NM(NumericDataType):
             raise ValueError('Invalid value for a NM data')
         super(NM, self).__init__(value, 16, validation_level)
 
+    def to_er7(self, encoding_chars=None):
+        if isinstance(self.value, Decimal) and self.value.is_finite():
+            # never use the scientific notation (str(Decimal('0.0000001')) is '1E-7')
+            return '{0:f}'.format(self.value)
+        return super(NM, self).to_er7(encoding_chars)
+
 
 class SI(NumericDataType):
     """
